@@ -63,3 +63,8 @@ check('C12',
   'All programs of <=4 (thorough 5) statements, nesting <=3, over Use / Group (prefixes with and without leading slash, 0..2 middleware, also passed with spare slice capacity) / Route / Controller / Resource (289 k programs quick): every route is reachable exactly under the concatenated prefixes (and not without them), carries exactly the modelled middleware (count and request trace), Routes() holds nothing else, and a sentinel route registered after every top-level statement has no prefix and no group middleware.',
   'Clean non-root prefixes as the statement says; program size bounded.',
   'DESIGN.md 5 C12')
+check('C03',
+  'stateless model checking of the real ServeHTTP under a hand-written controlled scheduler (preemption-bounded DFS over all interleavings) + vector-clock race monitor; free-running -race pass as safety net',
+  'rux is rebuilt with sync and container/list replaced by shims and a scheduling point before every visible statement (go build -overlay, generated from the current tree). For every scenario (router shape x 2-3 in-flight requests x sequential history incl. panicking and re-dispatching requests) every interleaving is executed up to a preemption bound iterated 0,1(,2,3): each request must observe exactly what it observes alone, no panic/deadlock/livelock, cache and pool invariants afterwards, no unordered conflicting accesses to the cache list (vector clocks). A cache-seam harness explores 2-3 threads of direct cache operations and checks linearizability against the reference LRU by brute force. Every schedule is replayable and replayed twice before it is reported. The same bodies then run free on 8 goroutines under the Go race detector.',
+  'Preemption-bounded (bounds and points per tier are in the evidence); sequentially consistent scheduler; the race clause for memory the shims cannot see rests on the dynamic -race pass, which is not an enumeration.',
+  'DESIGN.md 3.2, 5 C03')
